@@ -87,6 +87,37 @@ class TolerantLock:
 
 
 HANDLE_MODES = ("fresh", "one", "two")
+ENTRY_MODES = ("store", "importer")
+ENTRY_VIAS = ("string", "file")
+ENTRY_FMTS = ("graphml", "json")
+
+
+def doc_text(gr, fmt):
+    """the document an importer entry point is handed: GraphML or JSON node-link text of the nx.Graph"""
+    if fmt == "graphml":
+        return "\n".join(nx.generate_graphml(gr))
+    import warnings
+    with warnings.catch_warnings():
+        warnings.simplefilter("ignore")
+        return json.dumps(nx.readwrite.node_link_data(gr))
+
+
+def doc_parse(text, fmt):
+    """what networkx reads back from such a document (used only to decide whether the document says what the request says)"""
+    import io
+    import warnings
+    if fmt == "graphml":
+        return nx.read_graphml(io.BytesIO(text.encode("utf-8")))
+    with warnings.catch_warnings():
+        warnings.simplefilter("ignore")
+        return nx.readwrite.node_link_graph(data=json.loads(text))
+
+
+def _same_doc(a, b):
+    x, y = ig_of_nx(a), ig_of_nx(b)
+    ce = lambda e: sorted(canon([sorted([i, j]), sorted(d.items())]) for i, j, d in e)  # noqa
+    return x["nodes"] == y["nodes"] and [list(n.items()) for n in x["nodes"]] == [list(n.items()) for n in y["nodes"]] \
+        and ce(x["edges"]) == ce(y["edges"])
 
 
 class Backend:
@@ -99,11 +130,24 @@ class Backend:
                 merge_nodes / find_matching_nodes as the other graph) is a function of (hseed, k) only, so a prefix of a
                 history replays the same choices; the object clone_graph returns becomes the second handle of the new id."""
 
-    def __init__(self, flavour, tolerant_lock=True, handles="fresh", hseed=0):
+    def __init__(self, flavour, tolerant_lock=True, handles="fresh", hseed=0, entry="store", plan=None):
         assert flavour in ("shared", "disjoint")
         assert handles in HANDLE_MODES
+        assert entry in ENTRY_MODES
         self.flavour = flavour
         self.handles, self.hseed = handles, hseed
+        # which entry point serves an import request (`add_graph` / `add_graph_direct`):
+        #   "store"    - the store's add_graph / add_graph_direct, handed an nx.Graph (the only thing the models know);
+        #   "importer" - the importer's own entry points, handed a DOCUMENT: import_graph_from_string[_direct] or
+        #                import_graph_from_file[_direct] on GraphML or JSON node-link text; files come from a pool of one or
+        #                two paths per history that are REWRITTEN between imports (load, rewrite, load).  Which of them serves
+        #                request number k is a function of (hseed, k) only, or what `plan` {str(k): [via, fmt, slot]} says.
+        #                The target of a direct import is then whatever the importer reads out of the document.
+        self.entry, self.plan = entry, dict(plan or {})
+        self._dir = None
+        self.npaths = 1 + (hseed // 2) % 2
+        self.last_import = None     # (via, fmt, slot, graph id of the returned handle) of the last importer-served import
+        self.imports = []           # [(request number, via, fmt, slot)]
         self._h = {}            # graph id -> [handle objects]
         self.calls = 0          # requests applied so far
         # a fresh singleton for this flavour only (a shared and a disjoint Backend may be alive side by side;
@@ -161,6 +205,7 @@ class Backend:
 
     # -- one request ------------------------------------------------------------------
     def apply(self, req):
+        self.last_import = None
         try:
             return ["ok", self._do(req)]
         except Exception as e:  # noqa
@@ -202,6 +247,10 @@ class Backend:
             keys = self.import_keys(len(ig["nodes"])) if self.import_keys else None
             gr = build_nx(ig, keys)
             before = ig_of_nx(gr)
+            self.last_import = None
+            how = self.entry_of(op, g, ig, gr) if self.entry == "importer" else None
+            if how is not None:
+                return self._import_document(op, g, gr, *how)
             getattr(self.importer.storage, op)(g, gr)
             assert ig_of_nx(gr) == before, "store mutated the graph handed to it"
             return None
@@ -215,6 +264,72 @@ class Backend:
             self.adopt(a[0], r)
             return None
         return self._on(self.pg(g), op, a, other=lambda x: self.pg(x, 1))
+
+    # -- imports through the importer's entry points --------------------------------------
+    def entry_of(self, op, g, ig, gr):
+        """(via, fmt, slot, text) for this import request, or None when only the store's own entry point can be handed it:
+        an empty graph (the importers refuse a document without nodes before they reach the store), a direct import whose
+        nodes do not all carry the addressed graph id (the importer reads the target id out of the document: such a document
+        names another graph, several, or none), a value no document format carries unchanged"""
+        import random
+        if not ig["nodes"] or not isinstance(g, str):
+            return None
+        if op == "add_graph_direct" and not all(a.get(GRAPH_ID) == g for a in ig["nodes"]):
+            return None
+        r = random.Random(self.hseed * 7919 + self.calls * 13 + 5)
+        via = "file" if r.random() < 0.75 else "string"
+        fmt = r.choice(ENTRY_FMTS)
+        slot = r.randrange(self.npaths)
+        if str(self.calls) in self.plan:
+            via, fmt, slot = self.plan[str(self.calls)]
+        for f in (fmt,) + tuple(x for x in ENTRY_FMTS if x != fmt):
+            try:
+                text = doc_text(gr, f)
+                if _same_doc(doc_parse(text, f), gr):
+                    return via, f, slot, text
+            except Exception:  # noqa - the format cannot carry this graph
+                pass
+        return None
+
+    def path(self, slot):
+        import os
+        import tempfile
+        if self._dir is None:
+            self._dir = tempfile.mkdtemp(prefix="verif-store-")
+        return os.path.join(self._dir, "work%d.graph" % slot)
+
+    def cleanup(self):
+        import shutil
+        if self._dir is not None:
+            shutil.rmtree(self._dir, ignore_errors=True)
+            self._dir = None
+
+    def __del__(self):
+        try:
+            self.cleanup()
+        except Exception:  # noqa
+            pass
+
+    def _import_document(self, op, g, gr, via, fmt, slot, text):
+        imp = self.importer
+        self.imports.append((self.calls, via, fmt, slot))
+        self.last_import = (via, fmt, slot, None)
+        if via == "file":
+            with open(self.path(slot), "w") as f:      # the work file is overwritten with the next document
+                f.write(text)
+            if op == "add_graph":
+                r = imp.import_graph_from_file(graph_file=self.path(slot), graph_id=g)
+            else:
+                r = imp.import_graph_from_file_direct(graph_file=self.path(slot))
+        elif op == "add_graph":
+            r = imp.import_graph_from_string(graph_string=text, graph_id=g)
+        else:
+            r = imp.import_graph_from_string_direct(graph_string=text)
+        rid = getattr(r, "graph_id", None)
+        self.last_import = (via, fmt, slot, rid)
+        if isinstance(rid, str):
+            self.adopt(rid, r)         # the handle the importer returns is kept like one the caller made
+        return None
 
     def _on(self, pgr, op, a, other):
         if op == "add_node":
